@@ -370,7 +370,9 @@ def cases(tier):
             for vals in itertools.product(pairs, repeat=n):
                 out.append({'proc': 'computed', 'op': op, 'vals': [list(v) for v in vals]})
     texts = ['abc', 'aXc', '', None, 'a.c']
-    patsets = [[['a', 'z']], [['a.c', 'Q']], [['(a)(.)', r'\2\1']], [['a', 'b'], ['b', 'c']], [['c$', '']], [['x*', '-']]]
+    patsets = [[['a', 'z']], [['a.c', 'Q']], [['(a)(.)', r'\2\1']], [['a', 'b'], ['b', 'c']], [['c$', '']], [['x*', '-']],
+               # a find without metacharacters is still a regex, its replacement still a template
+               [['a', r'[\g<0>]']], [['bc', r'\\n']], [['X', r'\t']]]
     for ps in patsets:
         for n in (1, 2):
             for vals in itertools.product(texts, repeat=n):
